@@ -27,9 +27,9 @@ PID = "C16"
 
 # partial std / syn callees whose failure depends on the *shape of data* (decidable on the MIR)
 PARTIAL_S = re.compile(r"^(Option::(unwrap|expect)|Result::(unwrap|expect|unwrap_err|expect_err)|Index(Mut)?::\w+::index(_mut)?|Vec::(remove|swap_remove|insert|drain|split_off)"
-                       r"|slice::(split_at|split_at_mut|copy_from_slice|swap|chunks|windows|first_chunk)|str::split_at|RefCell::borrow(_mut)?|VecDeque::\w*remove\w*)$")
+                       r"|slice::(split_at|split_at_mut|copy_from_slice|swap|chunks|windows|first_chunk)|str::split_at|Index::(str|String)::index|RefCell::borrow(_mut)?|VecDeque::\w*remove\w*)$")
 # partial callees whose failure depends on token text (outside the encoding)
-PARTIAL_T = re.compile(r"(parse_quote::parse|Ident::new(_raw)?$|mk_ident|Literal::\w+|TokenStream::from_str|FromStr::TokenStream::from_str|__private::parse$|LitStr::parse$|LitInt::base10_parse|str::parse$|parse_str$|Index::str::index|Index::String::index)")
+PARTIAL_T = re.compile(r"(parse_quote::parse|Ident::new(_raw)?$|mk_ident|Literal::\w+|TokenStream::from_str|FromStr::TokenStream::from_str|__private::parse$|LitStr::parse$|LitInt::base10_parse|str::parse$|parse_str$)")
 DIVERGING = re.compile(r"panicking::|unwrap_failed|expect_failed|unreachable|begin_panic|panic_fmt|panic_display|slice_index|index_len_fail|str::slice_error")
 HASH_ITER = re.compile(r"(HashMap|HashSet|hash_map|hash_set)\S*::(iter|iter_mut|into_iter|keys|values|values_mut|into_keys|into_values|drain|retain|extract_if|union|intersection|difference|symmetric_difference)$")
 
@@ -260,6 +260,14 @@ ODD_ITEMS = [
     ("attr", "Add", "impl AddAssign for T { fn add_assign(&mut self, r: T) { } }"),
     ("attr", "Add", "impl AddAssign<&U> for T { fn add_assign(&mut self, r: &U) { } }"),
     ("attr", "Add", "impl Assign for T { }"),
+    ("attr", "Add", "impl gn for T { }"),
+    ("attr", "Add", "impl Sign for T { }"),
+    ("attr", "Add", "impl n for T { }"),
+    ("attr", "Add", "impl ssign for T { }"),
+    ("attr", "Add", "impl AddAssignAssign for T { fn add_assign(&mut self, r: T) { } }"),
+    ("attr", "Assign", "impl Add for T { type Output = T; fn add(self, r: T) -> T { self } }"),
+    ("attr", "gn, n, Sign, ssign, AssignAssign", "impl Add for T { type Output = T; fn add(self, r: T) -> T { self } }"),
+    ("attr", "Assign, gn, A, r#Add, r#AddAssign", "struct S(u8);"),
     ("attr", "Add", "impl ops::Add for T { type Output = T; }"),
     ("attr", "Add", "impl T { fn f() {} }"),
     ("attr", "Add", "impl Add(u8) -> u8 for T { }"),
@@ -528,7 +536,7 @@ def run(tier):
     t0 = time.time()
     out = common.Outcome(PID)
     rnd = random.Random(common.seed())
-    eng = mir_engine.Engine(opaque_local=set(), trace=set())
+    eng = mir_engine.Engine(opaque_local=set(), trace=set(), overflow_checks=True)
     obl = e3.Obligations(PID)
     ex0 = eng.executor()
     sites, hash_iter, callers = inventory(eng, ex0)
